@@ -11,6 +11,7 @@ import (
 	"context"
 	"encoding/json"
 	"fmt"
+	"os"
 	"sort"
 	"strings"
 	"testing"
@@ -88,6 +89,7 @@ type c18Pod struct {
 	Key      string `json:"key"`                // pods with equal keys must share a PodGroup, different keys must not; "" = no group expected
 	WantName string `json:"wantName,omitempty"` // documented exact PodGroup name, "" = not asserted
 	WantSub  string `json:"wantSub,omitempty"`  // expected sub-group label; "?" = not asserted
+	WantMin  int32  `json:"wantMinMember,omitempty"` // documented minMember of this pod's group (overrides the workload's); 0 = not asserted
 }
 
 type c18Workload struct {
@@ -121,6 +123,10 @@ type c18Case struct {
 	OrderA    []int            `json:"orderA"`
 	OrderB    []int            `json:"orderB"`
 	StepsC    []c18Step        `json:"stepsC,omitempty"`
+	// Strict = every mutating call after the fixpoint is a violation. The search runs with Strict=false: Updates of a
+	// PodGroup without sub-groups or without labels that leave the store unchanged are the known defect documented in
+	// NOTES.md (finding-noop-update.json, Strict=true) and are counted instead (note "known-noop-update-writes").
+	Strict bool `json:"strict"`
 }
 
 // ---------------------------------------------------------------------------------------------
@@ -159,6 +165,7 @@ type c18Run struct {
 	recorder *c18Recorder
 	writes   int
 	writeLog []string
+	noop     []bool // per write: the known no-op PodGroup update (see c18KnownNoop)
 	log      []string // trace
 	errPods  map[int]string
 }
@@ -235,6 +242,7 @@ func c18NewRun(c *c18Case) (*c18Run, error) {
 	note := func(verb string, obj client.Object) {
 		r.writes++
 		r.writeLog = append(r.writeLog, fmt.Sprintf("%s %T %s", verb, obj, obj.GetName()))
+		r.noop = append(r.noop, false)
 	}
 	r.cl = interceptor.NewClient(r.base, interceptor.Funcs{
 		Get: func(ctx context.Context, cl client.WithWatch, key client.ObjectKey, obj client.Object, opts ...client.GetOption) error {
@@ -257,7 +265,12 @@ func c18NewRun(c *c18Case) (*c18Run, error) {
 		},
 		Update: func(ctx context.Context, cl client.WithWatch, obj client.Object, opts ...client.UpdateOption) error {
 			note("update", obj)
-			return cl.Update(ctx, obj, opts...)
+			before, trigger := r.pgState(obj)
+			err := cl.Update(ctx, obj, opts...)
+			if after, _ := r.pgState(obj); err == nil && trigger && before != "" && before == after {
+				r.noop[len(r.noop)-1] = true
+			}
+			return err
 		},
 		Patch: func(ctx context.Context, cl client.WithWatch, obj client.Object, patch client.Patch, opts ...client.PatchOption) error {
 			note("patch", obj)
@@ -299,6 +312,20 @@ func c18NewRun(c *c18Case) (*c18Run, error) {
 		PodGroupHandler: podgroup.NewHandler(r.cl, cfg.NodePoolLabelKey, cfg.SchedulingQueueLabelKey),
 		configs:         cfg, eventRecorder: r.recorder}
 	return r, nil
+}
+
+// pgState returns the stored content of the PodGroup an Update is aimed at and whether it has the shape that
+// triggers the known defect "no-op Update on every reconcile" (finding-noop-update.json): no sub-groups or no labels,
+// which the handler rebuilds as empty-but-non-nil and reflect.DeepEqual / mapsEqualBySourceKeys tell apart from nil.
+func (r *c18Run) pgState(obj client.Object) (string, bool) {
+	if _, ok := obj.(*v2alpha2.PodGroup); !ok {
+		return "", false
+	}
+	pg := &v2alpha2.PodGroup{}
+	if err := r.base.Get(context.Background(), types.NamespacedName{Namespace: obj.GetNamespace(), Name: obj.GetName()}, pg); err != nil {
+		return "", false
+	}
+	return c18Canon(pg), len(pg.Spec.SubGroups) == 0 || len(pg.Labels) == 0
 }
 
 func c18Canon(obj client.Object) string {
@@ -457,15 +484,23 @@ func (r *c18Run) snapshot() c18Snap {
 }
 
 // extraRound reconciles every pod once more (in index order) and reports the mutating calls it saw.
-func (r *c18Run) extraRound() (writes []string, panicMsg string) {
+// With tolerateKnown, writes that carry the exact signature of the known no-op update defect are counted, not reported.
+func (r *c18Run) extraRound(tolerateKnown bool) (writes []string, known int, panicMsg string) {
 	w0 := len(r.writeLog)
 	r.log = append(r.log, "-- extra round over all pods --")
 	for i := range r.c.Pods {
 		if _, _, pm := r.reconcile(i); pm != "" {
-			return nil, pm
+			return nil, 0, pm
 		}
 	}
-	return append([]string(nil), r.writeLog[w0:]...), ""
+	for k := w0; k < len(r.writeLog); k++ {
+		if tolerateKnown && r.noop[k] {
+			known++
+			continue
+		}
+		writes = append(writes, r.writeLog[k])
+	}
+	return writes, known, ""
 }
 
 func c18Steps(order []int) []c18Step {
@@ -486,6 +521,7 @@ type c18Facts struct {
 	errs           int
 	subGroups      bool
 	multiPodGroups bool
+	knownNoop      int // tolerated writes with the signature of the known no-op update defect
 }
 
 func c18FirstOcc(order []int) map[int]int {
@@ -520,7 +556,8 @@ func c18Judge(c *c18Case) (sig, msg string, f c18Facts, trace map[string]any) {
 			return fail("no-fixpoint", fmt.Sprintf("run %s: pods keep being re-enqueued by their own reconciles (work queue not empty after %d steps)", name, len(r.log)))
 		}
 		snaps[k] = r.snapshot()
-		writes, pm := r.extraRound()
+		writes, known, pm := r.extraRound(!c.Strict)
+		f.knownNoop += known
 		trace["run"+name] = r.log
 		if pm != "" {
 			return fail("panic", fmt.Sprintf("Reconcile panicked in run %s: %s", name, pm))
@@ -586,7 +623,8 @@ func c18Judge(c *c18Case) (sig, msg string, f c18Facts, trace map[string]any) {
 			trace["runC"] = r.log
 			return fail(s, m)
 		}
-		writes, pm := r.extraRound()
+		writes, known, pm := r.extraRound(!c.Strict)
+		f.knownNoop += known
 		trace["runC"] = r.log
 		if pm != "" {
 			return fail("panic", "Reconcile panicked in run C: "+pm)
@@ -683,8 +721,12 @@ func c18CheckGrouping(c *c18Case, s c18Snap, errs map[int]string, f *c18Facts) (
 		}
 		pg := c18ParsePG(pgJSON)
 		w := &c.Workloads[p.W]
-		if w.WantMin != 0 && pg.Spec.MinMember != w.WantMin {
-			return "min-member", fmt.Sprintf("PodGroup %s of %s has minMember %d, documented value is %d", g, w.Shape, pg.Spec.MinMember, w.WantMin)
+		wantMin := w.WantMin
+		if p.WantMin != 0 {
+			wantMin = p.WantMin
+		}
+		if wantMin != 0 && pg.Spec.MinMember != wantMin {
+			return "min-member", fmt.Sprintf("PodGroup %s of %s has minMember %d, documented value is %d", g, w.Shape, pg.Spec.MinMember, wantMin)
 		}
 		if w.WantPrio != "" && pg.Spec.PriorityClassName != w.WantPrio {
 			return "priority-class", fmt.Sprintf("PodGroup %s of %s has priorityClassName %q, documented value is %q", g, w.Shape, pg.Spec.PriorityClassName, w.WantPrio)
@@ -847,6 +889,7 @@ func c18Record(c *c18Case, f c18Facts) {
 func TestCheckPodGrouper(t *testing.T) {
 	kit.Run(t, kit.Budget{Quick: 6000, Thorough: 120000}, func(t *rapid.T) {
 		c := c18GenCase(t)
+		c.Strict = os.Getenv("VERIF_C18_STRICT") != ""
 		sig, msg, f, trace := c18Judge(c)
 		if sig == "harness-error" {
 			kit.Inconclusive()
@@ -854,6 +897,13 @@ func TestCheckPodGrouper(t *testing.T) {
 			t.Fatalf("harness error: %s", msg)
 		}
 		c18Record(c, f)
+		if f.knownNoop > 0 {
+			kit.Known(c18Prop, "writes-after-fixpoint")
+			kit.Note("cases-hitting-known-noop-update-defect", 1)
+			kit.Note("known-noop-update-writes", int64(f.knownNoop))
+		} else {
+			kit.Note("cases-with-strict-zero-writes", 1)
+		}
 		if f.errs > 0 {
 			kit.Note("cases-with-reconcile-errors", 1)
 		}
